@@ -32,7 +32,6 @@ from lunaverif.ref import g9_device_model as M
 from lunaverif.simkit import CycleHarness
 
 RESPONSE_WINDOW = 18          # cycles (= FS bit times on this bus) the host waits for a response to start
-MAX_BURST = 1400              # a device packet longer than this many cycles is reported as stuck
 J_STATE, SE0 = 0b01, 0b00
 
 FULL_MPS = 8
@@ -297,6 +296,8 @@ class HostBFM:
         self.txr = list(txr) or [1]
         if not any(self.txr):
             self.txr = self.txr + [1]
+        gap = max(len(z) for z in "".join(str(int(bool(x))) for x in self.txr * 2).split("1"))
+        self.max_burst = 72 * (min(gap, len(self.txr)) + 1) + 64
         self.in_valid = list(in_valid) or [1]
         if not any(self.in_valid):
             self.in_valid = self.in_valid + [1]
@@ -428,8 +429,8 @@ class HostBFM:
         while (o.obs & 1):
             if self.txr_prev:
                 raw.append(((o.obs >> 1) & 0xFF))
-            if self.t - start > MAX_BURST:
-                raise Violation("tx-stuck", f"tx_valid held for more than {MAX_BURST} cycles from cycle {start}")
+            if self.t - start > self.max_burst:
+                raise Violation("tx-stuck", f"tx_valid held for more than {self.max_burst} cycles from cycle {start}")
             o = yield {}
         self.run.bursts += 1
         return bytes(raw), start, self.t - 2
@@ -600,7 +601,7 @@ def stream_check(run):
             err = e.stream_error()
             if err:
                 return f"OUT ep{ep} stream: {err}"
-            if run.violation is None and len(e.consumed) != len(e.expected):
+            if run.violation is None and not e.complete():
                 return (f"OUT ep{ep} stream: {len(e.expected)} bytes acknowledged but {len(e.consumed)} delivered "
                         f"after the drain")
     return None
